@@ -184,6 +184,10 @@ def _eval_layout(c, rec):
     labels = [f'deco:{x}' for x in classes]
     nt = 'permutation' in classes and len(classes) >= 2
     case = {k: c[k] for k in ('kind', 'family', 'params', 'text', 'classes')}
+    if any((not r.ok) and r.exc and r.exc.get('type') == 'RunTimeout' for r in (r0, r1)):
+        # the harness-side hang guard fired on one leg (machine load): inconclusive, never a violation
+        rec.case(case, nontrivial=False, labels=['inconclusive_hang_guard'])
+        return
     if not r0.ok:
         if r1.ok:
             rec.case(case, nontrivial=nt, labels=labels, key=c['text'])
